@@ -14,43 +14,43 @@ Lemma gc_path_ok : gc_path =
 Proof. reflexivity. Qed.
 
 Lemma skel_SaveGCSafePoint_ok : skel_SaveGCSafePoint =
-  [Call "Join"; Assign "key" ":= path.Join(gcPath, ""safe_point"")"; Call "FormatUint"; Call "Save"; Ret].
+  [Call "Join"; Call "FormatUint"; Call "Save"; Ret].
 Proof. reflexivity. Qed.
 
 Lemma skel_LoadGCSafePoint_ok : skel_LoadGCSafePoint =
-  [Call "Join"; Assign "key" ":= path.Join(gcPath, ""safe_point"")"; Call "Load"; IfE "err != nil" [Ret] []; IfE "value == """"" [Ret] []; Call "ParseUint"; IfE "err != nil" [Ret] []; Ret].
+  [Call "Join"; Call "Load"; IfE "v3 != nil" [Ret] []; IfE "v2 == """"" [Ret] []; Call "ParseUint"; IfE "v3 != nil" [Ret] []; Ret].
 Proof. reflexivity. Qed.
 
 Lemma skel_SaveServiceGCSafePoint_ok : skel_SaveServiceGCSafePoint =
-  [IfE "ssp.ServiceID == """"" [Ret] []; Call "checkServiceID"; IfE "err != nil" [Ret] []; IfE "ssp.ServiceID == gcWorkerServiceSafePointID && ssp.ExpiredAt != math.MaxInt64" [Ret] []; Call "Join"; Assign "key" ":= path.Join(gcPath, ""safe_point"", ""service"", ssp.ServiceID)"; Call "Marshal"; IfE "err != nil" [Ret] []; Call "Save"; Ret].
+  [IfE "v1.ServiceID == """"" [Ret] []; Call "checkServiceID"; IfE "v2 != nil" [Ret] []; IfE "v1.ServiceID == gcWorkerServiceSafePointID && v1.ExpiredAt != math.MaxInt64" [Ret] []; Call "Join"; Call "Marshal"; IfE "v2 != nil" [Ret] []; Call "Save"; Ret].
 Proof. reflexivity. Qed.
 
 Lemma skel_RemoveServiceGCSafePoint_ok : skel_RemoveServiceGCSafePoint =
-  [IfE "serviceID == gcWorkerServiceSafePointID" [Ret] []; Call "checkServiceID"; IfE "err != nil" [Ret] []; Call "Join"; Assign "key" ":= path.Join(gcPath, ""safe_point"", ""service"", serviceID)"; Call "Remove"; Ret].
+  [IfE "v1 == gcWorkerServiceSafePointID" [Ret] []; Call "checkServiceID"; IfE "v2 != nil" [Ret] []; Call "Join"; Call "Remove"; Ret].
 Proof. reflexivity. Qed.
 
 Lemma skel_initServiceGCSafePointForGCWorker_ok : skel_initServiceGCSafePointForGCWorker =
-  [Call "SaveServiceGCSafePoint"; IfE "err != nil" [Ret] []; Ret].
+  [Call "SaveServiceGCSafePoint"; IfE "v3 != nil" [Ret] []; Ret].
 Proof. reflexivity. Qed.
 
 Lemma skel_LoadMinServiceGCSafePoint_ok : skel_LoadMinServiceGCSafePoint =
-  [Call "Join"; Call "LoadRange"; IfE "err != nil" [Ret] []; IfE "len(keys) == 0" [Call "initServiceGCSafePointForGCWorker"; Ret] []; Assign "hasGCWorker" ":= false"; Assign "min" ":= &ServiceSafePoint{SafePoint: math.MaxUint64}"; ForE [Call "Unmarshal"; IfE "err != nil" [Ret] []; IfE "ssp.ServiceID == gcWorkerServiceSafePointID" [Assign "hasGCWorker" "= true"; IfE "ssp.ExpiredAt != math.MaxInt64" [Assign "ssp.ExpiredAt" "= math.MaxInt64"; Call "SaveServiceGCSafePoint"; IfE "err != nil" [Ret] []] []] []; IfE "ssp.ExpiredAt < now.Unix()" [Call "Remove"] []; IfE "ssp.SafePoint < min.SafePoint" [Assign "min" "= ssp"] []]; IfE "min.SafePoint == math.MaxUint64" [Call "initServiceGCSafePointForGCWorker"; Ret] []; IfE "!hasGCWorker" [Call "initServiceGCSafePointForGCWorker"; Ret] []; Ret].
+  [Call "Join"; Call "LoadRange"; Assign "v6" ":= v0.LoadRange(v2, v3, 0)"; IfE "v6 != nil" [Ret] []; IfE "len(v4) == 0" [Call "initServiceGCSafePointForGCWorker"; Ret] []; Assign "v7" ":= false"; Assign "v8" ":= &ServiceSafePoint{SafePoint: math.MaxUint64}"; ForE [Assign "v11" ":= &ServiceSafePoint{}"; Call "Unmarshal"; Assign "v6" ":= json.Unmarshal([]byte(v5[v9]), v11)"; IfE "v6 != nil" [Ret] []; IfE "v11.ServiceID == gcWorkerServiceSafePointID" [Assign "v7" "= true"; IfE "v11.ExpiredAt != math.MaxInt64" [Assign "v11.ExpiredAt" "= math.MaxInt64"; Call "SaveServiceGCSafePoint"; Assign "v6" "= v0.SaveServiceGCSafePoint(v11)"; IfE "v6 != nil" [Ret] []] []] []; IfE "v11.ExpiredAt < v1.Unix()" [Call "Remove"] []; IfE "v11.SafePoint < v8.SafePoint" [Assign "v8" "= v11"] []]; IfE "v8.SafePoint == math.MaxUint64" [Call "initServiceGCSafePointForGCWorker"; Ret] []; IfE "!v7" [Call "initServiceGCSafePointForGCWorker"; Ret] []; Ret].
 Proof. reflexivity. Qed.
 
 Lemma skel_checkServiceID_ok : skel_checkServiceID =
-  [Call "Contains"; IfE "strings.Contains(serviceID, ""/"") || serviceID == ""."" || serviceID == ""..""" [Ret] []; Ret].
+  [Call "Contains"; IfE "strings.Contains(v0, ""/"") || v0 == ""."" || v0 == ""..""" [Ret] []; Ret].
 Proof. reflexivity. Qed.
 
 Lemma skel_GetGCSafePoint_ok : skel_GetGCSafePoint =
-  [IfE "!s.isLocalRequest(forwardedHost)" [IfE "err != nil" [Ret] []; Ret] []; Call "validateRequest"; IfE "err != nil" [Ret] []; Call "GetRaftCluster"; IfE "rc == nil" [Ret] []; Call "LoadGCSafePoint"; IfE "err != nil" [Ret] []; Ret].
+  [IfE "!v0.isLocalRequest(v3)" [Assign "v4" ":= v0.getDelegateClient(v1, v3)"; Assign "v5" ":= v0.getDelegateClient(v1, v3)"; IfE "v5 != nil" [Ret] []; Assign "v1" "= grpcutil.ResetForwardContext(v1)"; Ret] []; Call "validateRequest"; Assign "v5" ":= v0.validateRequest(v2.GetHeader())"; IfE "v5 != nil" [Ret] []; Call "GetRaftCluster"; IfE "v6 == nil" [Ret] []; Call "LoadGCSafePoint"; Assign "v5" ":= v0.storage.LoadGCSafePoint()"; IfE "v5 != nil" [Ret] []; Ret].
 Proof. reflexivity. Qed.
 
 Lemma skel_UpdateGCSafePoint_ok : skel_UpdateGCSafePoint =
-  [IfE "!s.isLocalRequest(forwardedHost)" [IfE "err != nil" [Ret] []; Ret] []; Call "validateRequest"; IfE "err != nil" [Ret] []; Call "GetRaftCluster"; IfE "rc == nil" [Ret] []; Lock "s.gcSafePointLock"; DeferUnlock "s.gcSafePointLock"; Call "LoadGCSafePoint"; IfE "err != nil" [Ret] []; Assign "newSafePoint" ":= request.SafePoint"; IfE "newSafePoint > oldSafePoint" [Call "SaveGCSafePoint"; IfE "err != nil" [Ret] []] [IfE "newSafePoint < oldSafePoint" [Assign "newSafePoint" "= oldSafePoint"] []]; Ret].
+  [IfE "!v0.isLocalRequest(v3)" [Assign "v4" ":= v0.getDelegateClient(v1, v3)"; Assign "v5" ":= v0.getDelegateClient(v1, v3)"; IfE "v5 != nil" [Ret] []; Assign "v1" "= grpcutil.ResetForwardContext(v1)"; Ret] []; Call "validateRequest"; Assign "v5" ":= v0.validateRequest(v2.GetHeader())"; IfE "v5 != nil" [Ret] []; Call "GetRaftCluster"; IfE "v6 == nil" [Ret] []; Lock "v0.gcSafePointLock"; DeferUnlock "v0.gcSafePointLock"; Call "LoadGCSafePoint"; Assign "v5" ":= v0.storage.LoadGCSafePoint()"; IfE "v5 != nil" [Ret] []; Assign "v8" ":= v2.SafePoint"; IfE "v8 > v7" [Call "SaveGCSafePoint"; Assign "v5" ":= v0.storage.SaveGCSafePoint(v8)"; IfE "v5 != nil" [Ret] []] [IfE "v8 < v7" [Assign "v8" "= v7"] []]; Ret].
 Proof. reflexivity. Qed.
 
 Lemma skel_UpdateServiceGCSafePoint_ok : skel_UpdateServiceGCSafePoint =
-  [Lock "s.serviceSafePointLock"; DeferUnlock "s.serviceSafePointLock"; IfE "!s.isLocalRequest(forwardedHost)" [IfE "err != nil" [Ret] []; Ret] []; Call "validateRequest"; IfE "err != nil" [Ret] []; Call "GetRaftCluster"; IfE "rc == nil" [Ret] []; IfE "request.TTL <= 0" [Call "RemoveServiceGCSafePoint"; IfE "err != nil" [Ret] []] []; Call "HandleTSORequest"; IfE "err != nil" [Ret] []; Call "LoadMinServiceGCSafePoint"; Assign "min" ":= s.storage.LoadMinServiceGCSafePoint(now)"; IfE "err != nil" [Ret] []; IfE "request.TTL > 0 && request.SafePoint >= min.SafePoint" [Assign "ssp" ":= &core.ServiceSafePoint{ ServiceID: string(request.ServiceId), ExpiredAt: now.Unix() + request.TTL, SafePoint: request.SafePoint, }"; IfE "math.MaxInt64-now.Unix() <= request.TTL" [Assign "ssp.ExpiredAt" "= math.MaxInt64"] []; Call "SaveServiceGCSafePoint"; IfE "err != nil" [Ret] []; IfE "string(request.ServiceId) == min.ServiceID" [Call "LoadMinServiceGCSafePoint"; Assign "min" "= s.storage.LoadMinServiceGCSafePoint(now)"; IfE "err != nil" [Ret] []] []] []; Ret].
+  [Lock "v0.serviceSafePointLock"; DeferUnlock "v0.serviceSafePointLock"; IfE "!v0.isLocalRequest(v3)" [Assign "v4" ":= v0.getDelegateClient(v1, v3)"; Assign "v5" ":= v0.getDelegateClient(v1, v3)"; IfE "v5 != nil" [Ret] []; Assign "v1" "= grpcutil.ResetForwardContext(v1)"; Ret] []; Call "validateRequest"; Assign "v5" ":= v0.validateRequest(v2.GetHeader())"; IfE "v5 != nil" [Ret] []; Call "GetRaftCluster"; IfE "v6 == nil" [Ret] []; IfE "v2.TTL <= 0" [Call "RemoveServiceGCSafePoint"; Assign "v5" ":= v0.storage.RemoveServiceGCSafePoint(string(v2.ServiceId))"; IfE "v5 != nil" [Ret] []] []; Call "HandleTSORequest"; Assign "v5" ":= v0.tsoAllocatorManager.HandleTSORequest(tso.GlobalDCLocation, 1)"; IfE "v5 != nil" [Ret] []; Call "LoadMinServiceGCSafePoint"; Assign "v9" ":= v0.storage.LoadMinServiceGCSafePoint(v8)"; Assign "v5" ":= v0.storage.LoadMinServiceGCSafePoint(v8)"; IfE "v5 != nil" [Ret] []; IfE "v2.TTL > 0 && v2.SafePoint >= v9.SafePoint" [Assign "v10" ":= &core.ServiceSafePoint{ ServiceID: string(v2.ServiceId), ExpiredAt: v8.Unix() + v2.TTL, SafePoint: v2.SafePoint, }"; IfE "math.MaxInt64-v8.Unix() <= v2.TTL" [Assign "v10.ExpiredAt" "= math.MaxInt64"] []; Call "SaveServiceGCSafePoint"; Assign "v5" ":= v0.storage.SaveServiceGCSafePoint(v10)"; IfE "v5 != nil" [Ret] []; IfE "string(v2.ServiceId) == v9.ServiceID" [Call "LoadMinServiceGCSafePoint"; Assign "v9" "= v0.storage.LoadMinServiceGCSafePoint(v8)"; Assign "v5" "= v0.storage.LoadMinServiceGCSafePoint(v8)"; IfE "v5 != nil" [Ret] []] []] []; Ret].
 Proof. reflexivity. Qed.
 
 Lemma skel_api_List_ok : skel_api_List =
